@@ -9,6 +9,9 @@ from ..values import *
 from .. import transfer as T
 from ..model import AnalysisError, src
 
+# the factories that turn a parsed name into a grid object belong to the construction clause
+EXTRA_MODULES = ["molgri.space.rotobj"]
+
 META = {
     "explanation": "The name parser only ever *compares* its inputs with constants, so its behaviour on all names is a finite "
                    "table. The checker abstractly evaluates (a) the two token scanners over the token-count classes {0,1,>=2} "
